@@ -38,6 +38,23 @@ func (o Op) codeAttach(k int) (string, bool) {
 		w(`var %s: [String] = []`, n("acc"))
 		w(`%s%s.forEachAttachment(fun (a: &AnyResourceAttachment) { %s.append(a.getType().identifier) })`, n("ref"), o.kidPath(), n("acc"))
 		w(`%s`, ob("~fa", TArr(TString), false, n("acc")))
+	case "at.stackMove":
+		// access the attachments, move the base on the stack (same storage address), then iterate / destroy
+		w(`let %s <- %s.load<@World.R>(from: %s)!`, n("r"), st, sp(o.P))
+		w(`%s`, ob("smA", TInt, true, n("r")+"[World.A]?.baseId()"))
+		w(`%s`, ob("smB", TInt, true, n("r")+"[World.B]?.sum()"))
+		w(`let %s <- %s`, n("r2"), n("r"))
+		w(`var %s: [Int] = []`, n("acc"))
+		w(`%s.forEachAttachment(fun (a: &AnyResourceAttachment) {`, n("r2"))
+		w(`    if let aa = a as? &World.A { %s.append(aa.baseId()) }`, n("acc"))
+		w(`    if let bb = a as? &World.B { %s.append(bb.sum()) }`, n("acc"))
+		w(`})`)
+		w(`%s`, ob("~smI", TArr(TInt), false, n("acc")))
+		if o.I == 1 {
+			w(`destroy %s`, n("r2"))
+		} else {
+			w(`%s.save(<-%s, to: %s)`, st, n("r2"), sp(o.P))
+		}
 	case "at.sattach":
 		w(`let %s = %s.load<World.S>(from: %s)!`, n("s"), st, sp(o.P))
 		w(`let %s = attach World.SA(%d) to %s`, n("s2"), o.I, n("s"))
@@ -89,6 +106,31 @@ func (m *Model) applyAttach(o Op, pr *Pred) (string, bool) {
 			delete(r.Atts, o.S)
 		}
 		pr.obs("rem", "true")
+		return m.save(o.A, o.P, r), true
+	case "at.stackMove":
+		r, f := m.loadR(o.A, o.P)
+		if f != "" {
+			return f, true
+		}
+		var acc []string
+		if a := r.Atts["A"]; a != nil {
+			pr.obs("smA", r.F["id"].Canon())
+			acc = append(acc, r.F["id"].Canon())
+		} else {
+			pr.obs("smA", "nil")
+		}
+		if b := r.Atts["B"]; b != nil {
+			sum := fmt.Sprintf("Int(%d)", b.F["m"].I+r.F["n"].I)
+			pr.obs("smB", sum)
+			acc = append(acc, sum)
+		} else {
+			pr.obs("smB", "nil")
+		}
+		pr.obs("~smI", "["+strings.Join(acc, ", ")+"]")
+		if o.I == 1 {
+			pr.destroyed(r)
+			return "", true
+		}
 		return m.save(o.A, o.P, r), true
 	case "at.read", "at.set", "at.forEach":
 		r, f := m.borrowR(o.A, o.P)
